@@ -7,6 +7,7 @@ import (
 	"os"
 	"path/filepath"
 	"text/template"
+	"unicode/utf8"
 
 	"github.com/gardenbed/charm/ui"
 	auto "github.com/moorara/algo/automata"
@@ -316,7 +317,13 @@ func formatRunes(runes []rune) string {
 	var b bytes.Buffer
 
 	for _, r := range runes {
-		fmt.Fprintf(&b, "'%c', ", r)
+		// A character literal in Go syntax: quotes, backslashes, control and non-printable characters are escaped.
+		// A value that is not a valid code point has no character literal and is written as a number.
+		if utf8.ValidRune(r) {
+			fmt.Fprintf(&b, "%q, ", r)
+		} else {
+			fmt.Fprintf(&b, "%d, ", r)
+		}
 	}
 
 	if len(runes) > 0 {
